@@ -195,3 +195,15 @@ impl Ctx {
     }
 }
 pub fn hex(b: &[u8]) -> String { b.iter().map(|x| format!("{:02x}", x)).collect() }
+
+/// All assignments over dimensions with `dims[k]` values each (0 = default) having at most `d` non-default entries,
+/// ordered by number of deviations, then lexicographically: the iterative-deviation scheme applied to input shape.
+pub fn deviations(dims: &[usize], d: usize) -> Vec<Vec<usize>> {
+    fn rec(dims: &[usize], start: usize, left: usize, cur: &mut Vec<usize>, out: &mut Vec<Vec<usize>>) {
+        if left == 0 { out.push(cur.clone()); return; }
+        for k in start..dims.len() { for a in 1..dims[k] { cur[k] = a; rec(dims, k + 1, left - 1, cur, out); cur[k] = 0; } }
+    }
+    let mut out = Vec::new();
+    for n in 0..=d.min(dims.len()) { rec(dims, 0, n, &mut vec![0; dims.len()], &mut out); }
+    out
+}
